@@ -87,11 +87,11 @@ Qed.
 
 Section Gates.
 Variable g strict : Z.
-Hypothesis Hg8 : fo_gate g 8 = true.
 Hypothesis Hg16 : fo_gate g 16 = true.
 Hypothesis Hs0 : Z.testbit strict 0 = true.
 Hypothesis Hs1 : Z.testbit strict 1 = true.
 Hypothesis Hs2 : Z.testbit strict 2 = true.
+Hypothesis Hs3 : Z.testbit strict 3 = true.
 
 (* ---- the second reduction of the gate-31 tree (fo_rr) keeps every result *)
 Theorem rr_sound : forall f mode ptype x x',
@@ -114,7 +114,7 @@ Proof.
   pose proof (kids_refines x kids' Hok Hk'r) as Hr.
   destruct (fo_heads_eqb kids' (n_kids x) && negb (fo_has_gated_branch (n_t x))).
   - injection H as <-. split; assumption.
-  - destruct (proj2 (ee_red_sound cat_in isw isew sid e sets Henv g strict Hg8 Hg16 Hs0 Hs1 Hs2 (S (S f))) _ _ _ _ H Hok2) as [Hx' Hr'].
+  - destruct (proj2 (ee_red_sound cat_in isw isew sid e sets Henv g strict Hg16 Hs0 Hs1 Hs2 Hs3 (S (S f))) _ _ _ _ H Hok2) as [Hx' Hr'].
     split; [exact Hx' | eapply rw_refines_trans; [exact Hr | exact Hr']].
 Qed.
 
@@ -152,7 +152,7 @@ Proof.
   destruct H1 as (r1 & E1 & Hr1 & Hh1). rewrite E1 in H. cbn [bind] in H.
   (* ending backtracking *)
   destruct (fo_ee cat_in isw isew f g strict true false r1) as [r2| | |] eqn:E2; cbn [bind] in H; try discriminate.
-  destruct (proj1 (ee_red_sound cat_in isw isew sid e sets Henv g strict Hg8 Hg16 Hs0 Hs1 Hs2 f) _ _ _ E2 Hr1) as (Hr2 & Hh2 & _).
+  destruct (proj1 (ee_red_sound cat_in isw isew sid e sets Henv g strict Hg16 Hs0 Hs1 Hs2 Hs3 f) _ _ _ E2 Hr1) as (Hr2 & Hh2 & _).
   (* the marker *)
   destruct (n_kids r2) as [|k ks] eqn:Ek2; [discriminate|].
   destruct (fo_bump f g k true false) as [[k' mk]| | |] eqn:E3; cbn [bind] in H; try discriminate.
@@ -184,7 +184,7 @@ Proof.
       assert (Hkids : Forall node_ok (n_kids root)).
       { rewrite Forall_forall. intros k Hk. exact (node_ok_kid sets root k Hok Hk). }
       assert (Hall : Forall2 (fun k k' => node_ok k' /\ rw_refines e (tr k) (tr k')) (n_kids root) kids').
-      { clear -Ek Hkids Hg8 Hg16 Hs0 Hs1 Hs2 Henv. induction Ek as [|k k' l l' Hk _ IHl]; [constructor|].
+      { clear -Ek Hkids Hg16 Hs0 Hs1 Hs2 Hs3 Henv. induction Ek as [|k k' l l' Hk _ IHl]; [constructor|].
         inversion Hkids as [|? ? Hka Hkb]; subst. constructor; [exact (rr_sound _ _ _ _ _ Hk Hka) | apply IHl; assumption]. }
       assert (Hk'ok : Forall node_ok kids') by (clear -Hall; induction Hall as [|? ? ? ? [HA _] _ IHl]; constructor; assumption).
       assert (Hk'r : Forall2 (fun k k' => rw_refines e (tr k) (tr k')) (n_kids root) kids') by (clear -Hall; induction Hall as [|? ? ? ? [_ HB] _ IHl]; constructor; assumption).
